@@ -17,7 +17,10 @@ THEOREMS = ['GV.TI.' + t for t in (
     'mem_iff', 'intersectsDt_iff', 'issubset_iff', 'issuperset_iff', 'containsTI_iff', 'isdisjoint_iff',
     'isdisjoint_symm', 'intersects_eq_not_disjoint', 'intersects_iff', 'intersection_none_iff',
     'intersection_den', 'union_hull', 'union_covers_left', 'union_minimal', 'subset_antisymm', 'eq_iff',
-    'eq_imp_hash', 'mk_rejects')]
+    'eq_imp_hash', 'mk_rejects',
+    'intersection_comm', 'intersection_self', 'intersection_issubset', 'union_comm', 'union_assoc', 'union_self',
+    'issubset_refl', 'issubset_trans', 'elapsed_nonneg', 'elapsed_mono', 'elapsed_union_ge', 'isdisjoint_of_subset',
+    'copy_eq')]
 
 # second tie: time.py translated to Lean on every run, proved equal to the model (see common.Run.source_tie)
 SRC_MODULE = 'GeoVerif.Props.C06Src'
@@ -25,7 +28,8 @@ SRC_THEOREMS = ['GV.C06Src.' + t for t in (
     'isInstant_eq', 'elapsed_eq', 'eq_eq', 'hashKey_eq', 'containsDt_eq', 'issubset_eq', 'issuperset_eq', 'containsTI_eq',
     'isdisjoint_eq', 'intersectsDt_eq', 'intersects_eq', 'init_eq', 'initTd_eq', 'intersection_eq', 'union_eq', 'copy_eq',
     'src_mem_iff', 'src_issubset_iff', 'src_isdisjoint_iff', 'src_intersects_iff', 'src_intersects_symm',
-    'src_intersection_den', 'src_intersection_none_iff', 'src_init_rejects', 'src_eq_iff', 'src_eq_imp_hash')]
+    'src_intersection_den', 'src_intersection_none_iff', 'src_init_rejects', 'src_eq_iff', 'src_eq_imp_hash',
+    'src_intersection_comm', 'src_union_comm', 'src_issubset_trans')]
 
 EPOCH = datetime(1970, 1, 1, tzinfo=timezone.utc)
 BASE_US = (datetime(2020, 1, 1, tzinfo=timezone.utc) - EPOCH) // timedelta(microseconds=1)
